@@ -69,7 +69,7 @@ def gen_lines(tier, seed):
     # round trip: offset then add back reproduces the instant (checked through the two exact oracles above on the same tuples)
     r = gen.seeded(seed, 'C17')
     rates = [1, 10, 1000, 10 ** 6, 10 ** 9]
-    nrand = 20000 if tier == 'quick' else 600000
+    nrand = 60000 if tier == 'quick' else 600000
     for i in range(nrand):
         tps = r.choice(rates) if r.random() < 0.8 else r.randrange(1, 10 ** 9 + 1)
         lim = I64MAX // tps
@@ -130,7 +130,7 @@ def run(tier, seed):
     finally:
         runner.cleanup(wd)
     # block side: shuffled arrival orders of timed/untimed records, several kinds, direct adds
-    n = 300 if tier == 'quick' else 4000
+    n = 900 if tier == 'quick' else 6000
     cases = []
     for i in range(n):
         r = gen.seeded(seed, 'C17b', i)
